@@ -9,6 +9,9 @@ CONSTANTS
   FullOrder = TRUE
   Points <- Pts1
   Feeds <- Fd1
+  PhaseMaps <- Ph1
+  ReKVals <- NoReK
+  MaxHist = 0
   Configs <- CfgFewBoth
   Comp <- CompDef
 INVARIANT FreeVsInlinedAgree
@@ -19,6 +22,5 @@ INVARIANT ParamsAreTheFreeSymbols
 INVARIANT UntouchedOnlyFeed
 INVARIANT RatePolyMatches
 INVARIANT OTypeOK
-INVARIANT PolyAgreesWithFold
 INVARIANT EmitBuild
 CHECK_DEADLOCK FALSE
